@@ -3,6 +3,7 @@ package broker
 import (
 	"fmt"
 
+	"github.com/mdzio/go-mqtt/message"
 	"github.com/mdzio/go-mqtt/verifrt/vsched"
 	"verif/engine/explore"
 	"verif/harness/core"
@@ -389,6 +390,102 @@ func c12broker(c *core.Ctx) {
 		c.Rep.Transitions += int64(len(res.Points))
 		if len(res.Failures) > 0 {
 			if c.Violate(KnownForwardIDs, core.Replay{Scenario: fmt.Sprintf("broker-ids: P1 and P2 publish QoS %d with packet id 7 to a subscriber that does not acknowledge", q), Message: res.Failures[0]}) {
+				return
+			}
+		}
+	}
+	c.Rep.Scenarios++
+}
+
+// c12sameObject: an application publishes one message object twice (and a third time
+// after the first acknowledgement) while earlier transmissions are unacknowledged.
+// Every call is a request of its own: non-zero, pairwise distinct identifiers in
+// flight, each completion exactly once at its own acknowledgement.
+func c12sameObject(c *core.Ctx) {
+	if c.NShards > 1 && c.Shard != 2%c.NShards {
+		return
+	}
+	for _, q := range []byte{1, 2} {
+		q := q
+		name := fmt.Sprintf("client: one PublishMessage object published three times at QoS %d", q)
+		var viol string
+		body := func() {
+			w := NewClientWorld()
+			if !w.Connected("cid") {
+				return
+			}
+			w.Srv.Take()
+			m := message.NewPublishMessage()
+			m.SetTopic([]byte("t"))
+			m.SetPayload([]byte("same"))
+			m.SetQoS(q)
+			fired := make([]int, 3)
+			var ids []uint16
+			send := func(k int) bool {
+				if err := w.Cl.Publish(m, func(msg, ack message.Message, err error) error { fired[k]++; return nil }); err != nil {
+					vsched.Failf("Publish #%d of the same object failed: %v", k+1, err)
+					return false
+				}
+				w.Settle()
+				ps := w.Srv.Take()
+				if len(ps) != 1 || ps[0].Type != refcodec.PUBLISH || ps[0].QoS != q || string(ps[0].Payload) != "same" {
+					vsched.Failf("Publish #%d of the same object: on the wire %s", k+1, Describe(ps))
+					return false
+				}
+				if ps[0].ID == 0 {
+					vsched.Failf("Publish #%d of the same object went out with packet identifier 0", k+1)
+					return false
+				}
+				for _, o := range ids {
+					if o == ps[0].ID {
+						vsched.Failf("Publish #%d of the same object went out with identifier %d, which an unacknowledged earlier transmission uses", k+1, o)
+						return false
+					}
+				}
+				ids = append(ids, ps[0].ID)
+				return true
+			}
+			ack := func(k int) bool {
+				if q == 1 {
+					w.ServerSend(&refcodec.Packet{Type: refcodec.PUBACK, ID: ids[k]})
+				} else {
+					w.ServerSend(&refcodec.Packet{Type: refcodec.PUBREC, ID: ids[k]})
+					w.Settle()
+					if ps := w.Srv.Take(); len(ps) != 1 || ps[0].Type != refcodec.PUBREL || ps[0].ID != ids[k] {
+						vsched.Failf("PUBREC %d answered by %s", ids[k], Describe(ps))
+						return false
+					}
+					w.ServerSend(&refcodec.Packet{Type: refcodec.PUBCOMP, ID: ids[k]})
+				}
+				w.Settle()
+				return true
+			}
+			if !send(0) || !send(1) || !ack(0) {
+				return
+			}
+			if fired[0] != 1 || fired[1] != 0 {
+				vsched.Failf("after the acknowledgement of transmission 1 only: completions fired %v", fired)
+				return
+			}
+			ids[0] = 0 // free again
+			if !send(2) || !ack(1) || !ack(2) {
+				return
+			}
+			if fired[0] != 1 || fired[1] != 1 || fired[2] != 1 {
+				vsched.Failf("all three transmissions acknowledged: completions fired %v", fired)
+			}
+		}
+		res := explore.RunDefault(body)
+		c.Rep.Executions++
+		c.Rep.States++
+		c.Rep.Transitions += int64(len(res.Points))
+		if res.Status == vsched.StCrash {
+			viol = "a library goroutine panicked: " + firstLine(res.Crash)
+		} else if len(res.Failures) > 0 {
+			viol = res.Failures[0]
+		}
+		if viol != "" {
+			if c.Violate("C12 same object :: "+violClass(viol), core.Replay{Scenario: name, Message: viol}) {
 				return
 			}
 		}
